@@ -5,6 +5,7 @@ import (
 	"encoding/json"
 	"fmt"
 	"io"
+	"math/big"
 	"math/rand"
 	"os"
 	"os/exec"
@@ -33,6 +34,40 @@ type c16In struct {
 	// concurrent negotiations: Stress > 0 runs the matcher from many goroutines for Stress milliseconds in a
 	// child process (a runtime fatal error such as "concurrent map writes" cannot be recovered in-process)
 	Stress int
+	// generated numeric identifier: the generator's own data.  Incoming/Name/Supported are spelled from it
+	// ("/"+IName+"/"+V[0]+"."+V[1]+"."+V[2] against HV[0]+"."+HV[1]+"."+HV[2]); every entry of V, HV is a string
+	// of decimal digits (leading zeros allowed, any size)
+	Num *c16Num `json:",omitempty"`
+}
+
+type c16Num struct {
+	Pre   string // first segment (ignored by the code under test); no '/'
+	IName string
+	V, HV [3]string
+}
+
+func c16Numeric(pre, iname string, v [3]string, hname string, hv [3]string) c16In {
+	return c16In{Incoming: []byte(pre + "/" + iname + "/" + v[0] + "." + v[1] + "." + v[2]), Name: []byte(hname),
+		Supported: []byte(hv[0] + "." + hv[1] + "." + hv[2]), Num: &c16Num{Pre: pre, IName: iname, V: v, HV: hv}}
+}
+
+// the numbers a numeric case was generated from, as Coq literals (read with math/big, not with the code under test)
+func c16Nums(n *c16Num) (string, bool) {
+	if strings.Contains(n.Pre, "/") {
+		return "[]", false
+	}
+	var items []string
+	for _, d := range append(append([]string{}, n.V[:]...), n.HV[:]...) {
+		if d == "" || strings.Trim(d, "0123456789") != "" {
+			return "[]", false
+		}
+		v, ok := new(big.Int).SetString(d, 10)
+		if !ok {
+			return "[]", false
+		}
+		items = append(items, coqBigN(v))
+	}
+	return coqList(items), true
 }
 
 // TestVerifC16Child is the body of the stress child process; it does nothing unless started by the driver.
@@ -123,8 +158,9 @@ func c16NewSvc(t *testing.T) *Service {
 }
 
 // c16Route registers descs on a fresh node and lets a connected peer open every identifier of opens;
-// returns per identifier: 0 = stream could not be opened / no handler invoked, k = k-th handler, 99 = several
-func c16Route(t *testing.T, descs [][2]string, oneCall bool, opens [][2]string) []int {
+// returns per identifier: 0 = refused by the negotiation, k = k-th handler ran, 99 = several handlers ran,
+// 98 = opened but no handler ran within the wait, 97 = could not be opened for another reason than a refusal
+func c16Route(t *testing.T, slow int, descs [][2]string, oneCall bool, opens [][2]string) []int {
 	server, client := c16NewSvc(t), c16NewSvc(t)
 	defer server.Close()
 	defer client.Close()
@@ -156,25 +192,50 @@ func c16Route(t *testing.T, descs [][2]string, oneCall bool, opens [][2]string) 
 		t.Fatalf("c16 routing: connect: %v", err)
 	}
 	res := make([]int, len(opens))
+	wait := time.Duration(slow) * 10 * time.Second
 	for i, o := range opens {
-		octx, ocancel := context.WithTimeout(ctx, 10*time.Second)
+		// nothing of an earlier stream may be counted for this one
+		for drained := false; !drained; {
+			select {
+			case <-invoked:
+			default:
+				drained = true
+			}
+		}
+		octx, ocancel := context.WithTimeout(ctx, 3*wait)
 		str, err := client.NewStream(octx, peer, nil, p2p.StreamDesc{Name: o[0], Version: o[1]})
 		ocancel()
-		if err != nil {
-			res[i] = 0
-			continue
-		}
 		got := 0
-		select {
-		case got = <-invoked:
-		case <-time.After(5 * time.Second):
+		if err != nil {
+			// refused by the negotiation ("protocols not supported") = no handler matched; anything else
+			// (deadline, reset) says nothing about the routing decision
+			// (multistream.ErrNotSupported; recognised by its text, the module is only an indirect dependency)
+			refused := strings.Contains(err.Error(), "protocols not supported")
+			if !refused {
+				got = 97
+			}
+			// a handler that ran although the opener saw an error is still a routing fact
+			select {
+			case got = <-invoked:
+			case <-time.After(time.Duration(slow) * 150 * time.Millisecond):
+			}
+		} else {
+			// the stream is open: a handler accepted it and answered the header exchange; it calls the
+			// registered handler right after - wait for it (positively, generously)
+			select {
+			case got = <-invoked:
+			case <-time.After(wait):
+				got = 98
+			}
+			_ = str.Close()
 		}
-		_ = str.Close()
 		// a second invocation for the same stream would be a routing defect too
-		select {
-		case <-invoked:
-			got = 99
-		case <-time.After(20 * time.Millisecond):
+		if got >= 1 && got < 97 {
+			select {
+			case <-invoked:
+				got = 99
+			case <-time.After(time.Duration(slow) * 20 * time.Millisecond):
+			}
 		}
 		res[i] = got
 	}
@@ -237,19 +298,21 @@ func TestVerifC16(t *testing.T) {
 		}
 		return coqList(items)
 	}
+	emit := func(class string, in c16In, rawObs interface{}, kind int, descs [][2]string, iname string, nums string, obs int) {
+		e.Emit(class, in, rawObs, func(id int) string {
+			return coqRecord("id", coqN(uint64(id)), "kind", coqN(uint64(kind)), "descs", coqDescs(descs), "incoming", coqBytes(in.Incoming),
+				"hname", coqBytes(in.Name), "supported", coqBytes(in.Supported), "iname", coqStr(iname), "nums", nums, "obs", coqN(uint64(obs)))
+		})
+	}
 	run := func(class string, in c16In) {
 		if in.Stress > 0 {
+			// own case kind 3: 0 = every verdict right, 1 = a wrong verdict under concurrency, 2 = the child crashed
 			res, note := c16Stress(in.Stress * e.Slow)
-			// encoded as a function-level case on an identifier that must match: 1 = fine, 0 = wrong verdict, 2 = crash
-			obs := map[int]int{0: 1, 1: 0, 2: 2}[res]
 			type stressObs struct {
 				Res  int
 				Note string
 			}
-			e.Emit(class, in, stressObs{res, note}, func(id int) string {
-				return coqRecord("id", coqN(uint64(id)), "kind", "0%N", "descs", "[]", "incoming", coqStr("/preconf/1.0.0"), "hname", coqStr("preconf"),
-					"supported", coqStr("1.0.0"), "obs", coqN(uint64(obs)))
-			})
+			emit(class, in, stressObs{res, note}, 3, nil, "", "[]", res)
 			return
 		}
 		if in.Routing {
@@ -257,30 +320,30 @@ func TestVerifC16(t *testing.T) {
 			if len(parts) != 2 {
 				return
 			}
-			obs := c16Route(t, in.Descs, in.OneCall, [][2]string{{parts[0], parts[1]}})[0]
-			e.Emit(class, in, obs, func(id int) string {
-				return coqRecord("id", coqN(uint64(id)), "kind", "1%N", "descs", coqDescs(in.Descs), "incoming", coqBytes(in.Incoming),
-					"hname", coqBytes(nil), "supported", coqBytes(nil), "obs", coqN(uint64(obs)))
-			})
+			obs := c16Route(t, e.Slow, in.Descs, in.OneCall, [][2]string{{parts[0], parts[1]}})[0]
+			emit(class, in, obs, 1, in.Descs, "", "[]", obs)
 			return
 		}
+		if in.Num != nil {
+			// the strings are (re)spelled from the generator's data, so that a replayed case is the same case
+			in = c16Numeric(in.Num.Pre, in.Num.IName, in.Num.V, string(in.Name), in.Num.HV)
+			if nums, ok := c16Nums(in.Num); ok {
+				obs := c16Run(in)
+				emit(class, in, obs, 2, nil, in.Num.IName, nums, obs)
+				return
+			}
+			in.Num = nil
+		}
 		obs := c16Run(in)
-		e.Emit(class, in, obs, func(id int) string {
-			return coqRecord("id", coqN(uint64(id)), "kind", "0%N", "descs", "[]", "incoming", coqBytes(in.Incoming), "hname", coqBytes(in.Name),
-				"supported", coqBytes(in.Supported), "obs", coqN(uint64(obs)))
-		})
+		emit(class, in, obs, 0, nil, "", "[]", obs)
 	}
 	// routing through two real services: several descriptors registered in ONE AddStreamHandlers call and in
 	// separate calls; every identifier is opened by a connected peer and must reach exactly the handler the rule names
 	routing := func(descs [][2]string, oneCall bool, opens [][2]string) {
-		res := c16Route(t, descs, oneCall, opens)
+		res := c16Route(t, e.Slow, descs, oneCall, opens)
 		for i, o := range opens {
 			in := c16In{Incoming: []byte("/" + o[0] + "/" + o[1]), Routing: true, Descs: descs, OneCall: oneCall}
-			obs := res[i]
-			e.Emit("routing", in, obs, func(id int) string {
-				return coqRecord("id", coqN(uint64(id)), "kind", "1%N", "descs", coqDescs(descs), "incoming", coqBytes(in.Incoming),
-					"hname", coqBytes(nil), "supported", coqBytes(nil), "obs", coqN(uint64(obs)))
-			})
+			emit("routing", in, res[i], 1, descs, "", "[]", res[i])
 		}
 	}
 	for _, raw := range e.Replay {
@@ -300,6 +363,11 @@ func TestVerifC16(t *testing.T) {
 		routing(descs, true, opens)
 		routing(descs, false, opens)
 		routing(descs[:1], true, opens[:6])
+		// a name registered again replaces the earlier handler (whatever its version was); other spellings of a number
+		redescs := [][2]string{{"alpha", "1.2.0"}, {"beta", "2.0.5"}, {"alpha", "2.1.0"}}
+		reopens := [][2]string{{"alpha", "1.0.0"}, {"alpha", "2.0.7"}, {"alpha", "2.1.0"}, {"alpha", "2.2.0"}, {"beta", "2.0.0"}, {"alpha", "02.01.9"}, {"beta", "002.000.1"}}
+		routing(redescs, true, reopens)
+		routing(redescs, false, reopens)
 		if e.Tier == "thorough" {
 			routing([][2]string{{"p", "1.0.0"}, {"q", "1.0.0"}, {"r", "1.0.0"}, {"s", "1.0.0"}}, true,
 				[][2]string{{"p", "1.0.0"}, {"q", "1.0.0"}, {"r", "1.0.0"}, {"s", "1.0.0"}, {"s", "1.1.0"}, {"t", "1.0.0"}})
@@ -325,7 +393,8 @@ func TestVerifC16(t *testing.T) {
 					for HM := 0; HM <= K; HM++ {
 						for Hm := 0; Hm <= K; Hm++ {
 							for Hp := 0; Hp <= K; Hp++ {
-								run("exhaustive", c16In{Incoming: []byte(fmt.Sprintf("/%s/%d.%d.%d", nm[0], M, m, p)), Name: []byte(nm[1]), Supported: []byte(fmt.Sprintf("%d.%d.%d", HM, Hm, Hp))})
+								run("exhaustive", c16Numeric("", nm[0], [3]string{fmt.Sprint(M), fmt.Sprint(m), fmt.Sprint(p)}, nm[1],
+									[3]string{fmt.Sprint(HM), fmt.Sprint(Hm), fmt.Sprint(Hp)}))
 							}
 						}
 					}
@@ -338,8 +407,8 @@ func TestVerifC16(t *testing.T) {
 		"18446744073709551615", "18446744073709551616", "100000000000000000000", "007"}
 	for _, a := range bounds {
 		for _, b := range bounds {
-			run("boundary", c16In{Incoming: []byte("/preconf/" + a + "." + b + ".0"), Name: []byte("preconf"), Supported: []byte(b + "." + a + ".0")})
-			run("boundary", c16In{Incoming: []byte("/preconf/" + a + "." + a + "." + b), Name: []byte("preconf"), Supported: []byte(a + "." + b + ".1")})
+			run("boundary", c16Numeric("", "preconf", [3]string{a, b, "0"}, "preconf", [3]string{b, a, "0"}))
+			run("boundary", c16Numeric("", "preconf", [3]string{a, a, b}, "preconf", [3]string{a, b, "1"}))
 		}
 	}
 	// random numeric
@@ -364,8 +433,37 @@ func TestVerifC16(t *testing.T) {
 		if e.rng.Intn(2) == 0 {
 			Hm = c()
 		}
-		run("random-numeric", c16In{Incoming: []byte(fmt.Sprintf("/preconf/%d.%d.%d", M, m, c())), Name: []byte("preconf"),
-			Supported: []byte(fmt.Sprintf("%d.%d.%d", HM, Hm, c()))})
+		run("random-numeric", c16Numeric("", "preconf", [3]string{fmt.Sprint(M), fmt.Sprint(m), fmt.Sprint(c())}, "preconf",
+			[3]string{fmt.Sprint(HM), fmt.Sprint(Hm), fmt.Sprint(c())}))
+	}
+	// other spellings of the same numbers (leading zeros on either side), a non-empty first segment, other names:
+	// the rule is the same on the whole numeric domain
+	for i := 0; i < e.N/2; i++ {
+		sp := func(v uint64) string {
+			return strings.Repeat("0", e.rng.Intn(4)*e.rng.Intn(2)) + fmt.Sprint(v)
+		}
+		c := func() uint64 {
+			if e.rng.Intn(6) == 0 {
+				return ^uint64(0) - uint64(e.rng.Intn(2))
+			}
+			return uint64(e.rng.Intn(5))
+		}
+		nms := []string{"preconf", "handshake", "a", "ünï", "pre conf", ""}
+		pres := []string{"", "", "junk", "1.0.0", " ", "preconf"}
+		n := nms[e.rng.Intn(len(nms))]
+		hn := n
+		if e.rng.Intn(4) == 0 {
+			hn = nms[e.rng.Intn(len(nms))]
+		}
+		M, m := c(), c()
+		HM, Hm := M, m
+		if e.rng.Intn(3) == 0 {
+			HM = c()
+		}
+		if e.rng.Intn(2) == 0 {
+			Hm = c()
+		}
+		run("spellings", c16Numeric(pres[e.rng.Intn(len(pres))], n, [3]string{sp(M), sp(m), sp(c())}, hn, [3]string{sp(HM), sp(Hm), sp(c())}))
 	}
 	// malformed identifiers
 	for i := 0; i < e.N; i++ {
